@@ -13,6 +13,7 @@ PROBES=[
    ('cds_wfs_end','(unsigned long)CDS_WFS_END','N'), ('wfcq_adapt_attempts','WFCQ_ADAPT_ATTEMPTS','N'), ('wfs_adapt_attempts','CDS_WFS_ADAPT_ATTEMPTS','N'),
    ('call_rcu_rt','URCU_CALL_RCU_RT','N'), ('call_rcu_stop','URCU_CALL_RCU_STOP','N'), ('call_rcu_stopped','URCU_CALL_RCU_STOPPED','N'), ('call_rcu_pause','URCU_CALL_RCU_PAUSE','N'), ('call_rcu_paused','URCU_CALL_RCU_PAUSED','N'),
  ]),
+ ('wq', '#include <stddef.h>\n#include "%s/src/workqueue.h"\n'%REPO, [('wq_pause','URCU_WORKQUEUE_PAUSE','N'), ('wq_paused','URCU_WORKQUEUE_PAUSED','N')]),
  ('qsbr', '#include "%s/src/urcu-qsbr.c"\n'%REPO, [('qsbr_gp_online','URCU_QSBR_GP_ONLINE','N'), ('qsbr_gp_ctr','URCU_QSBR_GP_CTR','N')]),
  ('bp', '#include "%s/src/urcu-bp.c"\n'%REPO, [('bp_init_reader_count','INIT_READER_COUNT','N'), ('bp_gp_ctr_phase','URCU_BP_GP_CTR_PHASE','N')]),
  ('lfht', '#define _LGPL_SOURCE\n#include <stdbool.h>\n#include <urcu/urcu-memb.h>\n#include "%s/src/rculfhash.c"\n'%REPO, [
